@@ -99,6 +99,9 @@ type eQuery struct {
 	EventsInGet   bool
 	DefaultStatus []string
 	SayFalse      bool // `eventsInGet = false` spelled out
+	// ListRequest: 0 none, 1 `listRequest {}`, 2 `eventsListRequest {}` (any value panics the
+	// real compiler: cmpb's known C07 finding; outside C17's quantifier)
+	ListRequest int
 }
 
 type eSummary struct {
@@ -176,7 +179,7 @@ func fieldsCoq(fs []uField) string { return coqList(fs, uField.coq) }
 func (d *entityDecl) coq() string {
 	q := "None"
 	if d.Query != nil {
-		q = fmt.Sprintf("(Some (mkQ %s %s))", vh.BoolTerm(d.Query.EventsInGet), coqList(d.Query.DefaultStatus, vh.BytesTerm))
+		q = fmt.Sprintf("(Some (mkQ %s %s %s))", vh.BoolTerm(d.Query.EventsInGet), coqList(d.Query.DefaultStatus, vh.BytesTerm), vh.BoolTerm(d.Query.ListRequest != 0))
 	}
 	return fmt.Sprintf("(mkE %s %s %s %s %s %s %s %s %s %s %s)",
 		vh.BytesTerm(d.Pkg), vh.BytesTerm(d.Name), vh.BytesTerm(d.BaseURL),
@@ -392,6 +395,12 @@ func (d *entityDecl) block() string {
 				q[i] = fmt.Sprintf("%q", s)
 			}
 			sb.WriteString("\t\tdefaultStatusFilter = [" + strings.Join(q, ", ") + "]\n")
+		}
+		switch d.Query.ListRequest {
+		case 1:
+			sb.WriteString("\t\tlistRequest {\n\t\t}\n")
+		case 2:
+			sb.WriteString("\t\teventsListRequest {\n\t\t}\n")
 		}
 		sb.WriteString("\t}\n")
 	}
